@@ -29,7 +29,7 @@ Enables access to the Crazyflie memory subsystem.
 import errno
 import logging
 import struct
-from threading import Lock
+from threading import RLock
 
 from .deck_memory import DeckMemoryManager
 from .i2c_element import I2CElement
@@ -249,7 +249,7 @@ class Memory():
         self.cf = crazyflie
         self.cf.add_port_callback(CRTPPort.MEM, self._new_packet_cb)
         self.cf.disconnected.add_callback(self._disconnected)
-        self._write_requests_lock = Lock()
+        self._write_requests_lock = RLock()
 
         self._clear_state()
 
